@@ -28,10 +28,19 @@ Round 3 (second part of this file), again for every oracle:
 * `bits_resize_fail_atomic`, `bits_resize_nofault_is_c18`   `ArenaBitSet::_resize`
 * `new_block_fail_atomic`, `jit_add_fail_atomic`, `jit_add_ok`   `JitAllocator_new_block` (plain and dual mapping) and
                             `JitRuntime::_add` as resource models: a failure leaves no mapping / descriptor / record / span behind
+Round 4: the operations `inst` (plain x86 instruction: `ensure_space(16)` + bytes) and `jmpf` (jump to an unbound label:
+`ensure_space`, `new_fixup`, `E9 00000000`) are part of `Op` - every theorem of the first part covers them; and BaseBuilder
+(Model/FaultBuilder: `_emit` with inline comment, `new_label`, `bind`/`label_node_of`, `align`, `embed`, `embed_label`, `comment`):
+* `builder_fail_atomic_exact`  an out-of-memory answer left the node list untouched; a failed `new_label()` may have used up
+                            exactly one label id of the CodeHolder
+* `builder_answer_refines_spec`  any other answer is the failure-free effect (tolerance: an inline comment that cannot be
+                            duplicated is dropped, the instruction node is still added)
+* `builder_oom_consumes_fault`, `builder_never_corrupt`
 -/
 import AsmjitVerif.Lemmas.FaultInv
 import AsmjitVerif.Lemmas.FaultPool
 import AsmjitVerif.Lemmas.FaultMore
+import AsmjitVerif.Lemmas.FaultBuilder
 namespace AsmjitVerif.Fault
 open AsmjitVerif
 
@@ -189,6 +198,37 @@ theorem jit_add_ok (dual needBlock relocAllocs : Bool) (o : Oracle) (r : FaultMo
     (h : (FaultMore.jitAddF dual needBlock relocAllocs o r spans).2.2.2 = true) :
     (FaultMore.jitAddF dual needBlock relocAllocs o r spans).2.2.1 = spans + 1 :=
   FaultMore.jitAddF_ok dual needBlock relocAllocs o r spans h
+
+/-! ## BaseBuilder -/
+
+/-- `builder_fail_atomic_exact`: under every oracle a Builder call answered out of memory left the node list untouched; the only
+other observable change possible is one label id of the CodeHolder used up by a failed `new_label()` -/
+theorem builder_fail_atomic_exact (op : FaultBuilder.BOp) (o o' : Oracle) (s s' : FaultBuilder.BSt)
+    (h : FaultBuilder.bstep op o s = (o', s', .oom)) :
+    s'.v = s.v ∨ (op = .newLabel ∧ s'.v = { s.v with labelCount := s.v.labelCount + 1 }) :=
+  FaultBuilder.bstep_oom_exact op o o' s s' h
+
+/-- `builder_answer_refines_spec`: an answer other than out of memory is the failure-free answer and effect, except that an
+inline comment that cannot be duplicated is dropped -/
+theorem builder_answer_refines_spec (op : FaultBuilder.BOp) (o o' : Oracle) (s s' : FaultBuilder.BSt) (e : Err)
+    (h : FaultBuilder.bstep op o s = (o', s', e)) (he : e ≠ .oom) :
+    (s'.v, e) = FaultBuilder.bspec op s.v ∨
+    (∃ k, op = .emit k true ∧ e = .ok ∧ s'.v = { s.v with nodes := s.v.nodes ++ [.inst k false] }) :=
+  FaultBuilder.bstep_ref op o o' s s' e h he
+
+theorem builder_oom_consumes_fault (op : FaultBuilder.BOp) (o o' : Oracle) (s s' : FaultBuilder.BSt) (e : Err)
+    (h : FaultBuilder.bstep op o s = (o', s', e)) : faults o' ≤ faults o ∧ (e = .oom → faults o' < faults o) :=
+  FaultBuilder.bstep_faults op o o' s s' e h
+
+/-- `builder_never_corrupt`: after every history of Builder calls under every oracle, `_label_entries` and `_label_nodes` have
+room for what they hold and no unchecked append / resize ran without room -/
+theorem builder_never_corrupt (ops : List FaultBuilder.BOp) (o : Oracle) (hlen : ops.length ≤ 2 ^ 39) :
+    FaultBuilder.BInv (FaultBuilder.brun ops o {}).1 :=
+  FaultBuilder.brun_binv ops o {} (by unfold FaultBuilder.BInv; decide) (by simp; omega)
+
+/-- a failed `new_label()` that used up a label id; a dropped inline comment -/
+example : (FaultBuilder.bstep .newLabel [false, true] {}).2.2 = .oom ∧ (FaultBuilder.bstep .newLabel [false, true] {}).2.1.v.labelCount = 1 := by decide
+example : (FaultBuilder.bstep (.emit 1 true) [false, true] {}).2.1.v.nodes = [.section 0, .inst 1 false] := by decide
 
 -- non-vacuity
 /-- the second mmap of a dual-mapped block fails: nothing is left (the first mapping is unmapped, the descriptor closed) -/
